@@ -39,6 +39,9 @@ type explorer struct {
 	nontriv     *findings.Distinct
 	evals       int64
 	flaky       int64
+	slowFails   int64      // confirmed hangs / worker deaths so far
+	aloneMu     sync.Mutex // queue of the confirmations that run alone
+	slowShrunk  int64      // hangs / worker deaths handed to the shrinker so far
 	skips       map[string]int
 	capHit      string
 	failing     []failingCase
@@ -91,15 +94,23 @@ func symptomOfFailure(err error) (string, string) {
 	return "harness", err.Error()
 }
 
+// sweepWatchdog is the first-pass limit of the sweep (typical cases take < 10 ms, the slowest corpus program
+// ~0.2 s): a case that exceeds it is not judged by it, it is re-run alone under the full watchdog.
+const sweepWatchdog = 8 * time.Second
+
 // runOne executes a single case (alone: while nothing else runs).
 func (e *explorer) runOne(w WCase, alone bool) (sym, detail string, res WRes) {
+	return e.runOneT(w, alone, e.watchdog)
+}
+
+func (e *explorer) runOneT(w WCase, alone bool, limit time.Duration) (sym, detail string, res WRes) {
 	req, _ := json.Marshal(WReq{Cases: []WCase{w}})
 	var resp []byte
 	var err error
 	if alone {
-		resp, err = e.pool.CallAlone(req, e.watchdog)
+		resp, err = e.pool.CallAlone(req, limit)
 	} else {
-		resp, err = e.pool.Call(req, e.watchdog)
+		resp, err = e.pool.Call(req, limit)
 	}
 	if err != nil {
 		sym, detail = symptomOfFailure(err)
@@ -195,13 +206,17 @@ func (e *explorer) addFailing(c Case, sym, detail string) {
 
 // runBatch sends a batch; if the worker hangs or dies the cases are re-run one by one.
 func (e *explorer) runBatch(cs []Case) {
+	if e.flooded() {
+		return
+	}
 	req := WReq{}
 	for _, c := range cs {
 		req.Cases = append(req.Cases, c.W)
 	}
 	b, _ := json.Marshal(req)
 	// the batch watchdog is per case, so a batch of slow-but-terminating cases is not a hang
-	resp, err := e.pool.Call(b, e.watchdog+time.Duration(len(cs))*2*time.Second)
+	// (first pass with the short sweep watchdog; whatever exceeds it is decided by the full watchdog below)
+	resp, err := e.pool.Call(b, sweepWatchdog+time.Duration(len(cs))*500*time.Millisecond)
 	if err == nil {
 		var wr WResp
 		if jerr := json.Unmarshal(resp, &wr); jerr != nil || len(wr.Results) != len(cs) {
@@ -212,6 +227,9 @@ func (e *explorer) runBatch(cs []Case) {
 			e.record(cs[i], res)
 			if sym := symptomOfResult(res); sym != "" {
 				e.addFailing(cs[i], sym, res.PanicMsg)
+				if sym == "hang" || strings.HasPrefix(sym, "worker-death") {
+					atomic.AddInt64(&e.slowFails, 1)
+				}
 			}
 		}
 		return
@@ -221,10 +239,31 @@ func (e *explorer) runBatch(cs []Case) {
 		return
 	}
 	for _, c := range cs {
-		sym, detail, res := e.runOne(c.W, false)
+		if e.flooded() {
+			return
+		}
+		if time.Now().After(e.deadline.Add(2 * time.Minute)) {
+			e.mu.Lock()
+			if e.capHit == "" {
+				e.capHit = "internal deadline reached while cases of a failed batch were re-run one by one"
+			}
+			e.mu.Unlock()
+			return
+		}
+		sym, detail, res := e.runOneT(c.W, false, sweepWatchdog)
 		if sym == "hang" || strings.HasPrefix(sym, "worker-death") || (sym == "unbounded-recursion" && res.Class == "") {
-			// re-run once ALONE before believing it
+			// re-run once ALONE before believing it (the alone runs queue up behind each other: once enough
+			// of them are confirmed, the ones still waiting are given up, unreported)
+			e.aloneMu.Lock()
+			if e.flooded() {
+				e.aloneMu.Unlock()
+				return
+			}
 			sym2, detail2, res2 := e.runOne(c.W, true)
+			if sym2 == "hang" || strings.HasPrefix(sym2, "worker-death") {
+				atomic.AddInt64(&e.slowFails, 1)
+			}
+			e.aloneMu.Unlock()
 			if sym2 != sym {
 				atomic.AddInt64(&e.flaky, 1)
 			}
@@ -238,6 +277,23 @@ func (e *explorer) runBatch(cs []Case) {
 			e.addFailing(c, sym, detail)
 		}
 	}
+}
+
+// maxSlowFails: every hang costs two watchdog periods; a tree on which whole input classes hang would keep
+// the sweep busy for hours. After this many confirmed hangs / worker deaths the enumeration stops and the
+// failures found so far are reported (the run is then not exhaustive, and says so).
+const maxSlowFails = 8
+
+func (e *explorer) flooded() bool {
+	if atomic.LoadInt64(&e.slowFails) < maxSlowFails {
+		return false
+	}
+	e.mu.Lock()
+	if e.capHit == "" {
+		e.capHit = fmt.Sprintf("enumeration stopped after %d confirmed hangs / worker deaths; they are reported", maxSlowFails)
+	}
+	e.mu.Unlock()
+	return true
 }
 
 // sweep runs a generator through the pool.
@@ -277,7 +333,10 @@ func (e *explorer) sweep(name string, gen func(emit func(Case) bool)) {
 	n := 0
 	gen(func(c Case) bool {
 		n++
-		if n%256 == 0 && time.Now().After(e.deadline) {
+		if n%64 == 0 && e.flooded() {
+			return false
+		}
+		if (n == 1 || n%256 == 0) && time.Now().After(e.deadline) {
 			e.mu.Lock()
 			if e.capHit == "" {
 				e.capHit = fmt.Sprintf("internal deadline reached in space %s after %d cases of it", name, n)
@@ -339,6 +398,9 @@ func (e *explorer) report(fc failingCase) {
 	budget := 1 << 30
 	if slow {
 		budget = 24 // every probe of a hang costs a watchdog period
+		if n := atomic.AddInt64(&e.slowShrunk, 1); n > 3 {
+			budget = 0 // a flood of hangs: the first three are shrunk, the others are reported as found
+		}
 	}
 	if c.Graph != nil {
 		g := shrinkGraph(*c.Graph, func(h Graph) bool {
@@ -487,7 +549,8 @@ func Run() int {
 		p.Toks = toks
 		valid := true
 		for t := 0; t < 2 && valid; t++ {
-			_, _, res := e.runOne(single("corpus", p.Name, Render(toks), t).W, false)
+			// (short limit: a valid program answers within a fraction of a second; one that does not is not used)
+			_, _, res := e.runOneT(single("corpus", p.Name, Render(toks), t).W, false, sweepWatchdog)
 			if res.Class != "script" {
 				valid = false
 			}
@@ -528,7 +591,9 @@ func Run() int {
 	e.sweep("N", genNearMiss)
 	if thorough {
 		e.sweep("B", func(emit func(Case) bool) { genBytes(emit, 2, 2, 3) })
-		e.sweep("T", func(emit func(Case) bool) { genTokens(emit, append(append([]string{}, coreTokens...), moreTokens...), 0, 3, "alphabet=50") })
+		e.sweep("T", func(emit func(Case) bool) {
+			genTokens(emit, append(append([]string{}, coreTokens...), moreTokens...), 0, 3, "alphabet=50")
+		})
 		e.sweep("E1", func(emit func(Case) bool) { genSingleEdits(emit, pick(150, 1<<30)) })
 		e.sweep("E2", func(emit func(Case) bool) { genDoubleEdits(emit, pick(40, 60)) })
 		e.sweep("T4", func(emit func(Case) bool) { genTokens(emit, coreTokens, 4, 4, "alphabet=30") })
@@ -649,4 +714,3 @@ func Run() int {
 	_ = dropped
 	return r.Finish()
 }
-
